@@ -963,3 +963,13 @@ PROPS["C04"]["claim"] = PROPS["C04"]["claim"] + " Client-facing seeks (Verus): B
 # ---------------------------------------------------------------- U32 extension: the file is closed for appending before its sync starts
 PROPS["C12"]["claim"] = PROPS["C12"]["claim"] + " While and after a log file is synced no record can be appended to it (Kani, bounded): at the fdatasync of Log::flush_one the file has been taken out of the writer slot, or the slot is held exclusively -- a record appended between the sync and the hand-over would be applied to the tables unsynced."
 UNIT_META["U32"]["assumes"] = UNIT_META["U32"]["assumes"] + ["File::try_clone (dup(2)) is declared by contract although the code does not call it, so that an edit syncing through a second handle is decided; the other thread is not modelled: the obligation is that the writer slot is empty or exclusively held at the time of the sync"]
+
+# ---------------------------------------------------------------- U62 (Verus fragment: start-up order of Db::open_inner)
+UNIT_META["open_order"] = {"functions": ["db::Db::open_inner (fragment: from DbInner::open to the point where the handle is shared)"],
+                           "assumes": ["DbInner::{open, replay_all_logs, clean_all_logs, init_table_data} and Log::{clear_replay_logs, kill_logs} are contracts over a ghost view of the handle (how many replays the files have seen; at which of them the in-memory table data was built); replay_all_logs takes `&mut self` in its contract so that the view can change (the real receiver is `&self`), and `let db` / `let mut db` are normalised to `let mut db` (listed rewrite, identity on behaviour)",
+                                       "DbInner::open builds nothing from the table files that a later replay would change, or builds it from the files as they are before replay (its contract); what init_table_data builds (U14: free-entry stack mirrors the on-disk list) is checked by Kani on the real ValueTable"]}
+for _p in ("C10", "C14", "C03"):
+    PROPS[_p]["verus_units"] = list(PROPS[_p].get("verus_units", [])) + ["open_order"]
+_U62 = " Start-up order (Verus, fragment of Db::open_inner): the free-entry stacks and reference-count caches (Column::init_table_data) are built after every pending log was replayed into the table files and before the handle is shared -- built earlier they would miss what only the write-ahead log held."
+for _p in ("C10", "C14", "C03"):
+    PROPS[_p]["claim"] = PROPS[_p]["claim"] + _U62
